@@ -138,8 +138,23 @@ def work(job):
                         r2.solver += f" (small scope <= {bound})"
                         r = r2
                         break
+            candidate = False
+            if r.status == "unknown":
+                # candidate counter-model from the quantifier-free premises only: not a refutation by itself (the
+                # dropped premises might exclude it) - it is handed to the native replay, which decides
+                gp = [p for p in o.premises if not smt._has_quant(p)]
+                try:
+                    r3 = smt.check_valid(gp, o.goal, timeout_ms=min(timeout_ms, 8000), use_cvc5=False, hints=False)
+                except Exception:  # noqa: BLE001
+                    r3 = None
+                if r3 is not None and r3.status == "refuted":
+                    candidate = True
+                    r.model = r3.model
             d = dict(name=o.name, kind=o.kind, cls=o.cls, status=r.status, solver=r.solver,
                      time_s=round(r.time_s, 4), line=o.line, case=o.case, label=o.label, reason=r.reason)
+            if candidate:
+                d["status"] = "candidate"
+                d["model"] = project_model(r.model, o.params, o.extra.get("heaps") or {})
             if r.status == "refuted":
                 heaps = o.extra.get("heaps") or getattr(v, "old", None) and v.old.heap or {}
                 d["model"] = project_model(r.model, o.params, heaps)
